@@ -36,15 +36,25 @@ theorem exists_big_of_not_fits (S : SSet) (h : ¬ S.all fitsItem = true) :
 
 theorem selectText_ok {uidMode : Bool} {s : Snap} {text : Input} {set : List SeqRange} {rest : Input}
     {ms : List SeqMsg} (h : parseSeqSet text = some (set, rest))
-    (hres : (if uidMode then getMessagesInUIDRange s set else getMessagesInSeqRange s set) = .ok ms) :
+    (hres : getMessagesInRange uidMode s set = .ok ms) :
     selectText uidMode s text = .selected ms := by
   simp only [selectText, h, hres]
 
 theorem selectText_err {uidMode : Bool} {s : Snap} {text : Input} {set : List SeqRange} {rest : Input}
     {e : Err} (h : parseSeqSet text = some (set, rest))
-    (hres : (if uidMode then getMessagesInUIDRange s set else getMessagesInSeqRange s set) = .error e) :
+    (hres : getMessagesInRange uidMode s set = .error e) :
     selectText uidMode s text = .failed e := by
   simp only [selectText, h, hres]
+
+theorem getMessagesInRange_ok {uidMode : Bool} {s : Snap} {set : List SeqRange} {msgs : List SeqMsg}
+    (h : (if uidMode then getMessagesInUIDRange s set else getMessagesInSeqRange s set) = .ok msgs) :
+    getMessagesInRange uidMode s set = .ok (uniqueById [] msgs) := by
+  simp only [getMessagesInRange, h]
+
+theorem getMessagesInRange_err {uidMode : Bool} {s : Snap} {set : List SeqRange} {e : Err}
+    (h : (if uidMode then getMessagesInUIDRange s set else getMessagesInSeqRange s set) = .error e) :
+    getMessagesInRange uidMode s set = .error e := by
+  simp only [getMessagesInRange, h]
 
 theorem selectText_bad {uidMode : Bool} {s : Snap} {text : Input} (h : parseSeqSet text = none) :
     selectText uidMode s text = .bad := by
@@ -136,6 +146,244 @@ theorem collect_sound (s : Snap) (one : Interval → Except Err (List SeqMsg)) (
   intro m hm
   obtain ⟨iv, hiv, ms', hms', hmem⟩ := collect_mem h m hm
   exact hone iv hiv ms' hms' m hmem
+
+/-! ### the de-duplication of `snapshot.getMessagesInRange` -/
+
+theorem uniqueById_sublist (seen : List MsgId) (ms : List SeqMsg) : (uniqueById seen ms).Sublist ms := by
+  induction ms generalizing seen with
+  | nil => simp [uniqueById]
+  | cons m rest ih =>
+    by_cases h : m.msg.id ∈ seen
+    · simp only [uniqueById, List.contains_iff_mem, h, if_true]
+      exact (ih seen).trans (List.sublist_cons_self m rest)
+    · simp only [uniqueById, List.contains_iff_mem, h, if_false]
+      exact (ih _).cons_cons m
+
+theorem uniqueById_not_seen (seen : List MsgId) (ms : List SeqMsg) : ∀ m ∈ uniqueById seen ms, m.msg.id ∉ seen := by
+  induction ms generalizing seen with
+  | nil => simp [uniqueById]
+  | cons m rest ih =>
+    by_cases h : m.msg.id ∈ seen
+    · simp only [uniqueById, List.contains_iff_mem, h, if_true]
+      exact ih seen
+    · simp only [uniqueById, List.contains_iff_mem, h, if_false, List.mem_cons]
+      intro x hx
+      rcases hx with rfl | hx
+      · exact h
+      · have := ih _ x hx
+        simp only [List.mem_cons, not_or] at this
+        exact this.2
+
+/-- every internal id occurs at most once in the result -/
+theorem uniqueById_nodup (seen : List MsgId) (ms : List SeqMsg) : ((uniqueById seen ms).map (·.msg.id)).Nodup := by
+  induction ms generalizing seen with
+  | nil => simp [uniqueById]
+  | cons m rest ih =>
+    by_cases h : m.msg.id ∈ seen
+    · simp only [uniqueById, List.contains_iff_mem, h, if_true]
+      exact ih seen
+    · simp only [uniqueById, List.contains_iff_mem, h, if_false, List.map_cons, List.nodup_cons]
+      refine ⟨?_, ih _⟩
+      intro hmem
+      simp only [List.mem_map] at hmem
+      obtain ⟨x, hx, hid⟩ := hmem
+      have := uniqueById_not_seen _ rest x hx
+      simp only [List.mem_cons, not_or] at this
+      exact this.1 hid
+
+/-- every id of the input that was not seen before is still there -/
+theorem uniqueById_covers (seen : List MsgId) (ms : List SeqMsg) (m : SeqMsg) (hm : m ∈ ms) (h : m.msg.id ∉ seen) :
+    ∃ m' ∈ uniqueById seen ms, m'.msg.id = m.msg.id := by
+  induction ms generalizing seen with
+  | nil => simp at hm
+  | cons x rest ih =>
+    simp only [List.mem_cons] at hm
+    by_cases hx : x.msg.id ∈ seen
+    · simp only [uniqueById, List.contains_iff_mem, hx, if_true]
+      rcases hm with rfl | hm
+      · exact absurd hx h
+      · exact ih seen hm h
+    · simp only [uniqueById, List.contains_iff_mem, hx, if_false, List.mem_cons]
+      rcases hm with rfl | hm
+      · exact ⟨m, Or.inl rfl, rfl⟩
+      · by_cases he : m.msg.id = x.msg.id
+        · exact ⟨x, Or.inl rfl, he.symm⟩
+        · obtain ⟨m', hm', hid⟩ := ih (x.msg.id :: seen) hm (by simp [he, h])
+          exact ⟨m', Or.inr hm', hid⟩
+
+/-- on a snapshot with pairwise distinct ids, two genuine (sequence number, message) pairs with the
+    same internal id are the same pair -/
+theorem sound_same_id (s : Snap) (hnd : s.ids.Nodup) (m m' : SeqMsg) (h : SoundAt s m) (h' : SoundAt s m')
+    (hid : m'.msg.id = m.msg.id) : m' = m := by
+  obtain ⟨h1, h2⟩ := h
+  obtain ⟨h1', h2'⟩ := h'
+  have hlt : m.seq - 1 < s.ids.length := by
+    have := (List.getElem?_eq_some_iff.mp h2).1
+    simpa [Snap.ids] using this
+  have e1 : s.ids[m.seq - 1]? = some m.msg.id := by simp [Snap.ids, h2]
+  have e2 : s.ids[m'.seq - 1]? = some m'.msg.id := by simp [Snap.ids, h2']
+  have : m.seq - 1 = m'.seq - 1 := (List.getElem?_inj hlt hnd).mp (by rw [e1, e2, hid])
+  have hseq : m'.seq = m.seq := by omega
+  have hmsg : m'.msg = m.msg := by
+    rw [← hseq] at h2
+    rw [h2'] at h2
+    exact Option.some.inj h2
+  cases m; cases m'; simp_all
+
+/-- **the de-duplicated selection has the same members, each once** (snapshot invariant: ids distinct) -/
+theorem uniqueById_spec (s : Snap) (hnd : s.ids.Nodup) (msgs : List SeqMsg) (hs : ∀ m ∈ msgs, SoundAt s m) :
+    ((uniqueById [] msgs).map (·.msg.id)).Nodup ∧ (uniqueById [] msgs).Sublist msgs ∧
+      ∀ m, m ∈ uniqueById [] msgs ↔ m ∈ msgs := by
+  refine ⟨uniqueById_nodup [] msgs, uniqueById_sublist [] msgs, ?_⟩
+  intro m
+  constructor
+  · exact fun h => (uniqueById_sublist [] msgs).subset h
+  · intro h
+    obtain ⟨m', hm', hid⟩ := uniqueById_covers [] msgs m h (by simp)
+    have := sound_same_id s hnd m m' (hs m h) (hs m' ((uniqueById_sublist [] msgs).subset hm')) hid
+    rw [← this]; exact hm'
+
+/-! ### `asSet`: each selected message once -/
+
+theorem firstOccFrom_sublist (seen l : List Sel) : (firstOccFrom seen l).Sublist l := by
+  induction l generalizing seen with
+  | nil => simp [firstOccFrom]
+  | cons e rest ih =>
+    by_cases h : e ∈ seen
+    · simp only [firstOccFrom, List.contains_iff_mem, h, if_true]
+      exact (ih seen).trans (List.sublist_cons_self e rest)
+    · simp only [firstOccFrom, List.contains_iff_mem, h, if_false]
+      exact (ih _).cons_cons e
+
+theorem firstOccFrom_not_seen (seen l : List Sel) : ∀ e ∈ firstOccFrom seen l, e ∉ seen := by
+  induction l generalizing seen with
+  | nil => simp [firstOccFrom]
+  | cons x rest ih =>
+    by_cases h : x ∈ seen
+    · simp only [firstOccFrom, List.contains_iff_mem, h, if_true]; exact ih seen
+    · simp only [firstOccFrom, List.contains_iff_mem, h, if_false, List.mem_cons]
+      intro e he
+      rcases he with rfl | he
+      · exact h
+      · have := ih _ e he
+        simp only [List.mem_cons, not_or] at this
+        exact this.2
+
+theorem firstOccFrom_nodup (seen l : List Sel) : (firstOccFrom seen l).Nodup := by
+  induction l generalizing seen with
+  | nil => simp [firstOccFrom]
+  | cons x rest ih =>
+    by_cases h : x ∈ seen
+    · simp only [firstOccFrom, List.contains_iff_mem, h, if_true]; exact ih seen
+    · simp only [firstOccFrom, List.contains_iff_mem, h, if_false, List.nodup_cons]
+      refine ⟨?_, ih _⟩
+      intro hmem
+      have := firstOccFrom_not_seen _ rest x hmem
+      simp at this
+
+theorem mem_firstOccFrom (seen l : List Sel) (e : Sel) : e ∈ firstOccFrom seen l ↔ e ∈ l ∧ e ∉ seen := by
+  induction l generalizing seen with
+  | nil => simp [firstOccFrom]
+  | cons x rest ih =>
+    by_cases h : x ∈ seen
+    · simp only [firstOccFrom, List.contains_iff_mem, h, if_true, ih seen, List.mem_cons]
+      constructor
+      · rintro ⟨h1, h2⟩; exact ⟨Or.inr h1, h2⟩
+      · rintro ⟨h1 | h1, h2⟩
+        · subst h1; exact absurd h h2
+        · exact ⟨h1, h2⟩
+    · simp only [firstOccFrom, List.contains_iff_mem, h, if_false, List.mem_cons, ih (x :: seen), not_or]
+      constructor
+      · rintro (rfl | ⟨h1, h2, h3⟩)
+        · exact ⟨Or.inl rfl, h⟩
+        · exact ⟨Or.inr h1, h3⟩
+      · rintro ⟨h1 | h1, h2⟩
+        · exact Or.inl h1
+        · by_cases hx : e = x
+          · exact Or.inl hx
+          · exact Or.inr ⟨h1, hx, h2⟩
+
+/-- `asSet l` is `l` as a set: duplicate-free, the same members, a sublist of `l` -/
+theorem asSet_spec (l : List Sel) : (asSet l).Nodup ∧ (asSet l).Sublist l ∧ ∀ e, e ∈ asSet l ↔ e ∈ l := by
+  refine ⟨firstOccFrom_nodup [] l, firstOccFrom_sublist [] l, ?_⟩
+  intro e
+  simp [asSet, mem_firstOccFrom]
+
+/-- on genuine pairs over a snapshot with distinct ids, "same internal id" is "same (seq, uid)" -/
+theorem sound_id_iff_obs (s : Snap) (hnd : s.ids.Nodup) (m m' : SeqMsg) (h : SoundAt s m) (h' : SoundAt s m') :
+    m'.msg.id = m.msg.id ↔ obs m' = obs m := by
+  constructor
+  · intro hid; rw [sound_same_id s hnd m m' h h' hid]
+  · intro ho
+    have hseq : m'.seq = m.seq := by simpa [obs] using congrArg Prod.fst ho
+    have h2 := h.2
+    rw [← hseq, h'.2] at h2
+    have hmsg : m'.msg = m.msg := Option.some.inj h2
+    rw [hmsg]
+
+/-- the de-duplication by internal id is the de-duplication of what the client sees -/
+theorem uniqueById_obs (s : Snap) (hnd : s.ids.Nodup) (seenM ms : List SeqMsg)
+    (hs1 : ∀ m ∈ seenM, SoundAt s m) (hs2 : ∀ m ∈ ms, SoundAt s m) :
+    (uniqueById (seenM.map (·.msg.id)) ms).map obs = firstOccFrom (seenM.map obs) (ms.map obs) := by
+  induction ms generalizing seenM with
+  | nil => simp [uniqueById, firstOccFrom]
+  | cons m rest ih =>
+    have hm := hs2 m (by simp)
+    have hrest : ∀ x ∈ rest, SoundAt s x := fun x hx => hs2 x (by simp [hx])
+    have hiff : m.msg.id ∈ seenM.map (·.msg.id) ↔ obs m ∈ seenM.map obs := by
+      simp only [List.mem_map]
+      constructor
+      · rintro ⟨x, hx, hid⟩; exact ⟨x, hx, (sound_id_iff_obs s hnd m x hm (hs1 x hx)).mp hid⟩
+      · rintro ⟨x, hx, ho⟩; exact ⟨x, hx, (sound_id_iff_obs s hnd m x hm (hs1 x hx)).mpr ho⟩
+    by_cases h : m.msg.id ∈ seenM.map (·.msg.id)
+    · have h' := hiff.mp h
+      simp only [uniqueById, firstOccFrom, List.map_cons, List.contains_iff_mem, h, h', if_true]
+      exact ih seenM hs1 hrest
+    · have h' : ¬ obs m ∈ seenM.map obs := fun hc => h (hiff.mpr hc)
+      simp only [uniqueById, firstOccFrom, List.map_cons, List.contains_iff_mem, h, h', if_false]
+      have := ih (m :: seenM) (by
+        intro x hx
+        simp only [List.mem_cons] at hx
+        rcases hx with rfl | hx
+        · exact hm
+        · exact hs1 x hx) hrest
+      simp only [List.map_cons] at this
+      rw [this]
+
+/-! ### what FETCH / STORE / COPY / MOVE / UID EXPUNGE work on -/
+
+theorem seqResolve_sound (s : Snap) (hl : s.length < 4294967296) (set : List SeqRange) (ms : List SeqMsg)
+    (h : getMessagesInSeqRange s set = .ok ms) : ∀ m ∈ ms, SoundAt s m := by
+  rw [getMessagesInSeqRange_eq] at h
+  exact collect_sound s (seqOne s) _ (fun iv _ ms' h' => seqOne_sound s hl iv ms' h') ms h
+
+theorem uidResolve_sound (s : Snap) (hasc : Asc s) (hl : s.length < 4294967296) (set : List SeqRange) (ms : List SeqMsg)
+    (h : getMessagesInUIDRange s set = .ok ms) : ∀ m ∈ ms, SoundAt s m := by
+  by_cases hne : s.length = 0
+  · simp only [getMessagesInUIDRange, hne, if_true, Except.ok.injEq] at h
+    subst h; intro m hm; simp at hm
+  · rw [getMessagesInUIDRange_eq s hne] at h
+    refine collect_sound s (uidOne s) _ ?_ ms h
+    intro iv hiv
+    simp only [List.mem_map] at hiv
+    obtain ⟨r, _, rfl⟩ := hiv
+    exact uidOne_sound s hasc hl _ (ivOf_le _ r)
+
+/-- `getMessagesInRange` on top of a successful resolve: the same messages, each once, in the order
+    of their first occurrence -/
+theorem range_selection (uidMode : Bool) (s : Snap) (inv : Snap.Inv s) (hl : s.length < 4294967296)
+    (set : List SeqRange) (msgs : List SeqMsg)
+    (h : (if uidMode then getMessagesInUIDRange s set else getMessagesInSeqRange s set) = .ok msgs) :
+    ∃ ms, getMessagesInRange uidMode s set = .ok ms ∧ (ms.map (·.msg.id)).Nodup ∧ ms.Sublist msgs ∧
+      (∀ m, m ∈ ms ↔ m ∈ msgs) ∧ ms.map obs = asSet (msgs.map obs) := by
+  have hs : ∀ m ∈ msgs, SoundAt s m := by
+    cases uidMode with
+    | true => exact uidResolve_sound s inv.asc hl set msgs (by simpa using h)
+    | false => exact seqResolve_sound s hl set msgs (by simpa using h)
+  obtain ⟨h1, h2, h3⟩ := uniqueById_spec s inv.nodup msgs hs
+  refine ⟨_, getMessagesInRange_ok h, h1, h2, h3, ?_⟩
+  have := uniqueById_obs s inv.nodup [] msgs (by simp) hs
+  simpa [asSet] using this
 
 end SeqSet
 end Gluon
